@@ -122,7 +122,10 @@ def finish(col, replay_fn=None):
             for attempt in (1, 2):
                 again = replay_fn(rep['case'])
                 sigs = [a['signature'] for a in again]
-                if sig not in sigs:
+                head = ' | '.join(sig.split(' | ')[:2])
+                # (a replay that reports the same site and kind of violation with another feature string - the first of several
+                # simultaneous mismatches - reproduces the violation)
+                if sig not in sigs and not any(' | '.join(x.split(' | ')[:2]) == head for x in sigs):
                     raise env.InternalError(
                         f"non-deterministic replay (attempt {attempt}) for signature {sig!r}: got {sigs!r}; "
                         f"case={json.dumps(rep['case'])[:600]}")
